@@ -849,8 +849,15 @@ func (n *node) check(before []lease, resvBefore map[string]reservation, replies 
 			continue
 		}
 		byIP[l.IP] = l
+	}
+	// I2 (DESIGN: "no MAC has two") is about every entry of the table, also
+	// the expired and the merely offered ones: the server keeps one per client.
+	for _, l := range tbl {
+		if tv != nil {
+			break
+		}
 		if o, ok := byMAC[l.MAC]; ok && o.IP != l.IP {
-			tv, tsubj = kernel.Violationf(n.afterOp("client-two-leases"), "client %s holds two leases at once: [%s] and [%s]; table %v", l.MAC, o, l, sortedStrings(tbl)), l.MAC
+			tv, tsubj = kernel.Violationf(n.afterOp("client-two-leases"), "client %s has two leases in the table: [%s] and [%s]; table %v", l.MAC, o, l, sortedStrings(tbl)), l.MAC
 			continue
 		}
 		byMAC[l.MAC] = l
@@ -1282,14 +1289,24 @@ func (n *node) step(i int, op Op) error {
 				if err = n.compareRestart(before, old, n.srv); err != nil {
 					return err
 				}
-				// Whatever the restart dropped has been reported (or is a
-				// listed finding): the reservations are now what came back.
-				cur, _, _ := n.tableOf(n.srv)
-				for _, m := range sortedKeys(n.resv) {
-					if l, ok := findStatic(cur, m); !ok || l.IP != n.resv[m].IP {
-						delete(n.resv, m)
-						c.Probe("reservation_dropped_by_restart")
-					}
+			} else if derr == nil {
+				// The disk differed from memory (already reported when it
+				// arose): the restart loads the disk's version.
+				c.Probe("restart_from_stale_disk")
+			}
+			// Whatever the restart dropped has been reported (or is a listed
+			// finding): the reservations are now what came back.
+			cur, _, _ := n.tableOf(n.srv)
+			for _, m := range sortedKeys(n.resv) {
+				if l, ok := findStatic(cur, m); !ok || l.IP != n.resv[m].IP {
+					delete(n.resv, m)
+					c.Probe("reservation_dropped_by_restart")
+				}
+			}
+			for _, l := range cur {
+				// A reservation that only the stale disk still knew.
+				if _, ok := n.resv[l.MAC]; l.Static && !ok {
+					n.resv[l.MAC] = reservation{IP: l.IP, Host: l.Host}
 				}
 			}
 		}
@@ -1355,5 +1372,5 @@ var Prop = &kernel.Property{
 	Assumptions: []string{"reservations are what the static-lease API itself confirmed with 200", "a lease is unexpired while its expiry is after now; at the exact expiry instant an address counts as taken for the offer-liveness clause only", "addresses merely offered (never acknowledged) do not count as leased for the offer-liveness clause", "expiry is compared at one-second resolution across disk and restart", "all-zero MAC (the implementation's conflict marker) and 8/20-byte hardware addresses are not generated", "after a listed finding that leaves the table persistently corrupt (same lease listed twice) the rest of that case only looks for crashes"},
 	FaultKinds:  []string{"clean_restart", "clock_jump_past_lease_time", "pool_exhausted", "client_wrong_server_id"},
 	ProbeNames: []string{"offer", "ack", "nak", "silent", "dynamic_lease_acked", "static_lease_acked", "reply_to_reserved_client", "static_added", "static_added_outside_pool", "static_updated", "static_removed", "static_remove_hit_dynamic", "static_rejected",
-		"decline_reallocated", "release_removed_lease", "discover_new_client_free_address", "offer_despite_exhaustion", "expired_lease_in_table", "restart_with_leases", "shadow_restart_checked", "reservation_dropped_by_restart", "table_dup_seen", "table_invariant_broken_seen", "disk_differs_seen", "ops_after_taint"},
+		"decline_reallocated", "release_removed_lease", "discover_new_client_free_address", "offer_despite_exhaustion", "expired_lease_in_table", "restart_with_leases", "shadow_restart_checked", "reservation_dropped_by_restart", "restart_from_stale_disk", "table_dup_seen", "table_invariant_broken_seen", "disk_differs_seen", "ops_after_taint"},
 }
